@@ -150,7 +150,7 @@ func (c16) Exec(pj json.RawMessage, tape *simrt.Tape, keepLog bool) harness.RunO
 	if err := json.Unmarshal(pj, &p); err != nil {
 		return harness.RunOut{Infra: err.Error()}
 	}
-	s := simrt.New(simrt.Config{Tape: tape, KeepLog: keepLog, MaxSteps: 200000})
+	s := simrt.New(simrt.Config{DaemonsOK: true, Tape: tape, KeepLog: keepLog, MaxSteps: 200000})
 	var evs []stampedEv
 	add := func(kind string, call int) {
 		// called while holding mu: the stamp order is the lock order
